@@ -4,6 +4,7 @@ CONSTANTS
   Fixed = FALSE
   AllowForeignClose = TRUE
   AllowCancel = TRUE
+  AllowStall = TRUE
 CONSTRAINT HW
 INVARIANT PacketBoundary
 INVARIANT NoStaleOutput
